@@ -315,7 +315,7 @@ func c14FactsOf(c *Ctx, sx *symx.Ctx, fn *ssa.Function, fk string) []c14Facts {
 					}
 					// len(matcher(pattern, chain value)) > 0, the matcher a helper whose
 					// result is empty exactly when pattern.FindAllString finds nothing
-					if hc, ok := arg.(*ssa.Call); ok && len(hc.Common().Args) == 2 {
+					if hc, ok := arg.(*ssa.Call); ok && (len(hc.Common().Args) == 2 || len(hc.Common().Args) == 1) {
 						if h := hc.Common().StaticCallee(); h != nil && c.P.IsRepoFunc(h) && len(h.Blocks) > 0 {
 							if find, si, ok := c14RegexMatcher(h); ok {
 								if on, _ := onChain(hc.Common().Args[si]); on {
@@ -582,6 +582,57 @@ func c14DetectorHelper(h *ssa.Function) (string, bool) {
 				for _, in := range b.Instrs {
 					if ac, ok := in.(*ssa.Call); ok && ssau.CallName(ac) == "builtin.append" {
 						set, found = k, true
+					}
+				}
+			}
+		}
+	}
+	// ... or the other way round: the helper walks the runes of its argument
+	// and records (append / set insert) those found in a constant set
+	if !found {
+		for _, l := range ssau.RangeLoops(h) {
+			if l.Next == nil || !l.Next.IsString {
+				continue
+			}
+			rg, ok := l.Next.Iter.(*ssa.Range)
+			if !ok || !isP(rg.X) {
+				continue
+			}
+			for _, iff := range ssau.Ifs(h) {
+				if !l.InLoop(iff.Block()) {
+					continue
+				}
+				call, ok := iff.Cond.(*ssa.Call)
+				if !ok || ssau.CallName(call) != "strings.ContainsRune" {
+					continue
+				}
+				k, ok := ssau.ConstString(call.Common().Args[0])
+				if !ok {
+					continue
+				}
+				ex, ok := call.Common().Args[1].(*ssa.Extract)
+				if !ok || ex.Tuple != ssa.Value(l.Next) || ex.Index != 2 {
+					continue
+				}
+				tb := iff.Block().Succs[0]
+				for _, b := range h.Blocks {
+					if b != tb && !tb.Dominates(b) {
+						continue
+					}
+					for _, in := range b.Instrs {
+						switch x := in.(type) {
+						case *ssa.Call:
+							if ssau.CallName(x) == "builtin.append" {
+								set, found = k, true
+							}
+						case *ssa.MapUpdate:
+							// the set handed back
+							for _, ret := range ssau.ReturnsOf(h) {
+								if ssau.ResultValue(ret, 0) == x.Map {
+									set, found = k, true
+								}
+							}
+						}
 					}
 				}
 			}
@@ -951,7 +1002,7 @@ func c14EmptyTest(cond ssa.Value) (subj ssa.Value, emptySucc int, ok bool) {
 // list appended to once per key of a set that received every match. Returns
 // the Find call and the index of the subject parameter.
 func c14RegexMatcher(h *ssa.Function) (*ssa.Call, int, bool) {
-	if len(h.Params) != 2 || h.Signature.Results().Len() != 1 {
+	if (len(h.Params) != 2 && len(h.Params) != 1) || h.Signature.Results().Len() != 1 {
 		return nil, 0, false
 	}
 	var find *ssa.Call
@@ -963,8 +1014,18 @@ func c14RegexMatcher(h *ssa.Function) (*ssa.Call, int, bool) {
 		}
 		a := call.Common().Args
 		for i, p := range h.Params {
-			if a[1] == ssa.Value(p) {
+			if a[1] != ssa.Value(p) {
+				continue
+			}
+			if len(h.Params) == 2 {
 				if rp := h.Params[1-i]; a[0] == ssa.Value(rp) {
+					find, si = call, i
+				}
+				continue
+			}
+			// the pattern is a package-level expression (its class is read by c14MetaSet)
+			if u, isLoad := a[0].(*ssa.UnOp); isLoad {
+				if _, isGlobal := u.X.(*ssa.Global); isGlobal {
 					find, si = call, i
 				}
 			}
